@@ -2,6 +2,7 @@ package main
 
 import (
 	"fmt"
+	"go/token"
 	"go/types"
 	"sort"
 	"strings"
@@ -590,3 +591,83 @@ func ruleRowsMixing(p *Program, r *Report) {
 }
 
 func init() { register("C01", Rule{"R01d", ruleRowsMixing}) }
+
+// R01e: a member count is not a slot position.  Array.count is the number of non-hole members; positions in
+// Array.values run to len(values) and differ from the count as soon as the array has a hole.  A value derived from
+// `count` must therefore never index or bound a slice of `values`, nor be compared with a slot position (a value
+// derived from an item's `at` or from `offset`).
+func ruleCountIsNotAPosition(p *Program, r *Report) {
+	r.Begin("R01e", "count ≠ position: in package rel no value derived from Array.count indexes or slices Array.values, and none is compared with a slot position (a value derived from Array.offset or from an ArrayItemTuple's index); for an array with a hole the two differ, so such code cuts or misplaces members", 0)
+	defer r.End()
+	relPkg := p.Pkg("rel")
+	fieldLoad := func(x ssa.Value, tname, fname string) bool {
+		switch y := x.(type) {
+		case *ssa.Field:
+			if st := structOf(y.X.Type()); st != nil && TypeName(y.X.Type()) == tname {
+				return st.Field(y.Field).Name() == fname
+			}
+		case *ssa.UnOp:
+			if fa, ok := y.X.(*ssa.FieldAddr); ok {
+				if st := structOf(fa.X.Type()); st != nil && TypeName(Deref(fa.X.Type())) == tname {
+					return st.Field(fa.Field).Name() == fname
+				}
+			}
+		}
+		return false
+	}
+	fromCount := func(v ssa.Value) bool {
+		return DependsOn(v, func(x ssa.Value) bool { return fieldLoad(x, "rel.Array", "count") })
+	}
+	fromPosition := func(v ssa.Value) bool {
+		return DependsOn(v, func(x ssa.Value) bool {
+			return fieldLoad(x, "rel.Array", "offset") || fieldLoad(x, "rel.ArrayItemTuple", "at")
+		})
+	}
+	isValues := func(v ssa.Value) bool {
+		return DependsOn(v, func(x ssa.Value) bool { return fieldLoad(x, "rel.Array", "values") })
+	}
+	n := 0
+	for _, fn := range p.RepoFns {
+		if fn.Pkg != relPkg {
+			continue
+		}
+		ord := 0
+		report := func(pos token.Pos, what string) {
+			n++
+			ord++
+			r.Fn(FnName(fn))
+			r.Viol(fmt.Sprintf("count-as-position@%s~%d", FnName(fn), ord), fmt.Sprintf("%s %s: Array.count is the number of members, not a position in the store — with a hole in the array the member at that position is an interior one and everything after it is cut off or misplaced", FnName(fn), what), pos)
+		}
+		ForEachInstr(fn, func(ins ssa.Instruction) {
+			switch x := ins.(type) {
+			case *ssa.IndexAddr:
+				if isValues(x.X) && fromCount(x.Index) {
+					report(x.Pos(), "indexes Array.values with a value derived from Array.count")
+				}
+			case *ssa.Slice:
+				if isValues(x.X) {
+					for _, b := range []ssa.Value{x.Low, x.High} {
+						if b != nil && fromCount(b) {
+							report(x.Pos(), "slices Array.values at a bound derived from Array.count")
+						}
+					}
+				}
+			case *ssa.BinOp:
+				switch x.Op {
+				case token.EQL, token.NEQ, token.LSS, token.LEQ, token.GTR, token.GEQ:
+					if (fromCount(x.X) && fromPosition(x.Y) && !fromCount(x.Y)) || (fromCount(x.Y) && fromPosition(x.X) && !fromCount(x.X)) {
+						report(x.Pos(), "compares a slot position with a value derived from Array.count")
+					}
+				}
+			}
+		})
+	}
+	if n == 0 {
+		r.OK("count-as-position", "no use of Array.count as a position", 0)
+	}
+}
+
+func init() {
+	register("C01", Rule{"R01e", ruleCountIsNotAPosition})
+	register("C05", Rule{"R01e", ruleCountIsNotAPosition})
+}
